@@ -162,11 +162,30 @@ func GenerateC08(n int, seed int64) []Script {
 					return true
 				}},
 				{Type: "exact", Pat: base[len(base)-1], Pred: in(base[len(base)-1])},
+				// a '+' in a path is a plus sign, under every setting
+				{Type: "exact", Pat: "a+b", Pred: in("a+b")},
+				{Type: "regex", Pat: "^[a-z+]+$", Pred: func(v string) bool {
+					if v == "" {
+						return false
+					}
+
+					for _, c := range v {
+						if (c < 'a' || c > 'z') && c != '+' {
+							return false
+						}
+					}
+
+					return true
+				}},
 			}
 
 			for _, t := range e {
 				if t.T != "lit" && t.N != "" && rng.Intn(3) == 0 {
 					m := pm[rng.Intn(len(pm))]
+					if rng.Intn(3) == 0 {
+						m = pm[len(pm)-1-rng.Intn(2)] // one of the two that know the plus sign
+					}
+
 					m.Name = t.N
 					r.Routes[0].Params = append(r.Routes[0].Params, m)
 				}
@@ -218,6 +237,11 @@ func GenerateC08(n int, seed int64) []Script {
 		var paths [][]string
 
 		paths = append(paths, base)
+
+		// a plus sign where the single wildcard is
+		plus := append([]string{}, base...)
+		plus[pos] = "a+b"
+		paths = append(paths, plus)
 
 		for k := 0; k < 5; k++ {
 			p := append([]string{}, base...)
